@@ -24,14 +24,11 @@ abbrev Name := List Char
 structure Kind where
   signed : Bool
   bits : Nat
-  /-- the underlying type is spelled `int` (as opposed to `int64`) -/
-  plainInt : Bool := false
   deriving DecidableEq, Repr
 
-/-- constraints.Integer is `~int8 | ~int16 | ~int32 | int | ~int64 | ~uint8 | ~uint16 | ~uint32 | ~uint | ~uint64`:
-    `int` carries no `~`, so a defined type whose underlying type is `int` is not in the type set and
-    cannot instantiate ParseEnum / TryParseEnum / IsEnum (nor the codec methods, which call ParseEnum) -/
-def Kind.inConstraint (k : Kind) : Bool := !k.plainInt
+-- constraints.Integer is `~int8 | ~int16 | ~int32 | ~int | ~int64 | ~uint8 | ~uint16 | ~uint32 | ~uint | ~uint64`
+-- (since /repo 1178f7f `int` carries its `~` too): every kind of the grammar instantiates
+-- ParseEnum / TryParseEnum / IsEnum, so the kind's spelling (`int` vs `int64`) plays no role in the model.
 
 def Kind.lo (k : Kind) : Int := if k.signed then -((2 : Int) ^ (k.bits - 1)) else 0
 def Kind.hi (k : Kind) : Int := if k.signed then (2 : Int) ^ (k.bits - 1) - 1 else (2 : Int) ^ k.bits - 1
